@@ -104,6 +104,8 @@ def _rand_model(rng):
                         entries[i] = dict(key=key, kind="plain", type=0x12, data=rng.choice([0, 0xFFFFFFFF]))
                     else:
                         entries[i] = dict(key=key, kind="plain", type=0x10, data=rng.randrange(1 << 32))
+                    if entries[i]["kind"] == "plain" and entries[i]["type"] != 3 and rng.random() < 0.3:
+                        entries[i]["kind"] = "compact"          # typed compact entry: the type travels in the entry's flags
                     if rng.random() < 0.3:
                         entries[i]["flags"] = 2
                 if entries:
@@ -189,6 +191,9 @@ def generated_tables(U):
                                   rid=hex(rid))
                     elif e["type"] == 3:
                         U.ensures("string value", ate.get_key_data() == e["data"], rid=hex(rid), got=ate.get_key_data(), want=e["data"])
+                    elif e["kind"] == "compact":
+                        U.ensures("typed value of a compact entry", ate.is_compact() and (ate.datatype, ate.data) == (e["type"], e["data"]), rid=hex(rid),
+                                  got=(ate.datatype, ate.data))
                     elif e["kind"] == "plain":
                         U.ensures("typed value", (ate.key.get_data_type(), ate.key.get_data()) == (e["type"], e["data"]), rid=hex(rid))
                         U.ensures("formatted value", ate.key.format_value() == RV.format_value(e["type"], e["data"], None, e["data"] & 0xF),
@@ -206,6 +211,15 @@ def generated_tables(U):
                         r = U.call(rr.resolve, (pid << 24) | (ti << 16) | i)
                         U.ensures("resolver returns the stored string among the id's values",
                                   r.ok and e["data"] in [v for _, v in r.value if isinstance(v, str)], got=str(r.value)[:200], exc=repr(r.exc)[:100])
+                    elif e["kind"] in ("plain", "compact"):
+                        # a typed value (colour, dimension, boolean, integer) resolves to its text, whether the entry is plain or compact
+                        r = U.call(rr.resolve, (pid << 24) | (ti << 16) | i)
+                        want_v = RV.format_value(e["type"], e["data"], None, e["data"] & 0xF)
+                        U.ensures("resolver returns the text of the stored typed value among the id's values",
+                                  r.ok and want_v in [v for _, v in r.value if isinstance(v, str)], got=str(r.value)[:200], want=want_v,
+                                  kind=e["kind"], exc=repr(r.exc)[:100])
+        iv = U.call(lambda: p.get_integer_resources(pname))
+        U.ensures("integer listing can be produced (plain and compact integer entries)", iv.ok, exc=repr(iv.exc)[:200])
 
 
 @unit("C28", covers=[(AXML, "ARSCResTableConfig.__init__"), (AXML, "ARSCResTableConfig.__eq__"), (AXML, "ARSCResTableConfig._get_tuple")],
